@@ -4,6 +4,7 @@ From Coq Require Import List NArith.
 From Goit Require Import Bytes Regex Ignore World Repo IgnoreFacts.
 From Goit Require Import Index Inv IndexFacts BranchFacts ExactFacts SnapshotFacts IgnoreCmdFacts.
 From Goit Require Import Bridge.
+From Goit Require GateReachFacts.
 Import ListNotations.
 
 (* T0 (tie to the source): every regexp literal of the current Go source denotes
@@ -127,3 +128,18 @@ Print Assumptions C17_goit_dir_never_overwritten.
 Print Assumptions C17_no_ignore_nothing_hidden.
 Print Assumptions C17_no_ignore_add_dot_stages_everything.
 Print Assumptions C17_source_patterns_are_the_models.
+
+(* C17_add_never_stages_excluded over histories, with neither `Canonical (idx_of w)` nor
+   `ex_wt_consistent w` assumed: both are invariants of every history whose user edits are ones a file
+   system can perform (edits_wt_okb: no write below a file or onto a directory, no removal of a non-empty
+   directory as a file; checked edit by edit in the world where it is made) *)
+Theorem C17_add_never_stages_excluded_on_every_history : forall h e args w w' o tr,
+  Forall action_ok h -> GateReachFacts.edits_wt_okb h w_empty = true -> w = run h w_empty ->
+  w_coll w = false -> SmallStore (w_objs w) ->
+  step (ACmd e (CAdd args)) w = (w', o, tr) ->
+  (forall q, goit_path q -> staged w' q = staged w q \/ staged w' q = None) /\
+  (forall c, ctx_of w = Some c -> forall q,
+     staged w' q <> staged w q -> staged w' q <> None ->
+     ignored w (x_pats c) q = false /\ ign_match (x_pats c) q = false).
+Proof. exact GateReachFacts.history_add_never_stages_excluded. Qed.
+Print Assumptions C17_add_never_stages_excluded_on_every_history.
